@@ -181,6 +181,15 @@ impl Property for C05 {
                 _ => rng.range(2_000, 20_000),
             };
         }
+        // the socket reports errors now and then (ICMP port unreachable surfacing as ECONNRESET and
+        // the like): the node must go on serving
+        if rng.chance(1, 3) {
+            let n_err = rng.range(1, 6);
+            for _ in 0..n_err {
+                sc.at(rng.range(1_000, t.max(2_000)), Op::RecvErr { node: 0, count: rng.range(1, 2) as u32 });
+            }
+            sc.params.insert("recv_errors".into(), n_err as i64);
+        }
         sc.end_ms = t + 30_000;
         sc.params.insert("prefill".into(), prefill as i64);
         sc
@@ -204,6 +213,9 @@ impl Property for C05 {
             v.hit("read_only_run");
             v.sample = json!({"read_only": true, "queries_delivered": open.len()});
             return v;
+        }
+        if run.stats.get("fault_recv_err").copied().unwrap_or(0) >= 3 {
+            v.hit("three_or_more_recv_errors");
         }
         for q in &open {
             if q.msg.as_ref().map(well_formed_query).unwrap_or(false) && q.t + 5_000 < run.end_ms {
@@ -342,6 +354,6 @@ impl Property for C05 {
         vec!["'well-formed' is decided by the simulator's independent codec; the generator avoids grey-zone inputs (trailing bytes, non-UTF-8 want entries, missing port)"]
     }
     fn required_reach(&self) -> Vec<&'static str> {
-        vec!["answered_ping", "answered_find_node", "answered_get_peers", "answered_announce_peer", "announce_acked", "announce_203", "announce_202", "long_transaction_id", "empty_transaction_id", "want_given", "reply_with_nodes", "reply_with_values", "read_only_run"]
+        vec!["answered_ping", "answered_find_node", "answered_get_peers", "answered_announce_peer", "announce_acked", "announce_203", "announce_202", "long_transaction_id", "empty_transaction_id", "want_given", "reply_with_nodes", "reply_with_values", "read_only_run", "three_or_more_recv_errors"]
     }
 }
